@@ -2,4 +2,5 @@ SPECIFICATION Spec
 CONSTANT N = 4
 INVARIANT OraclesAgree
 INVARIANT BoundHolds
+INVARIANT RecAgrees
 CHECK_DEADLOCK FALSE
